@@ -19,8 +19,11 @@ OK_FILES = {"f1": ("one.py", "python", "code"), "f2": ("two.sh", "python", "sheb
 # per-file failure classes: (file name, style, initial content, extra flavour)
 FAIL_FILES = {
     "terminator": {"f1": ("one.c", "c", "code"), "f2": ("two.css", "c", "comment"), "f3": ("sub/three.ml", "ml", "code")},
+    # styles whose closers contain braces (the diagnostic that quotes such a header line must survive that too)
+    "terminator-brace": {"f1": ("refs.bib", "bibtex", "code"), "f2": ("view.hbs", "handlebars", "code"), "f3": ("sub/page.jinja2", "jinja", "code")},
 }
 TERMINATOR_HOLDER = "Jane */ Doe *) Inc."
+TERMINATOR_HOLDERS = {"terminator": TERMINATOR_HOLDER, "terminator-brace": "Jane {Doe} #} and --}} Ltd {0}"}
 
 
 def build(ctx, rnd, gens):
@@ -34,7 +37,7 @@ def build(ctx, rnd, gens):
         b, fs, failed = h["b"], h["fs"], set(g["failed"])
         if b["skip"] or b["merge"] or not b["cop"]:
             continue
-        for cls in ("terminator",):
+        for cls in ("terminator", "terminator-brace"):
             if not failed:
                 continue
             for dot in (None, "force", "fallback"):
@@ -48,8 +51,7 @@ def build(ctx, rnd, gens):
                     must[fname] = f not in failed
                 for order in (names, names[::-1]):
                     step = anncases.step_of(b, rnd, list(order), {"dot": dot} if dot else {}, pick_seed=f"{ctx.seed}|{len(cases)}")
-                    if cls == "terminator":
-                        step["req"]["holders"] = [TERMINATOR_HOLDER]
+                    step["req"]["holders"] = [TERMINATOR_HOLDERS[cls]]
                     step["must"] = must
                     # a holder carrying the style's comment terminator cannot be written as a valid header of that file
                     # (with --force-dot-license nothing is commented: the sibling takes any holder)
@@ -66,6 +68,13 @@ def build(ctx, rnd, gens):
             step = anncases.step_of(b1, rnd, names, dict(base, template=tmpl), must=False)
             step["expect"] = "fail"
             add(good if dot == "force" else good_own, [step], cls="template-" + tmpl, dot=dot)
+        if dot != "force":
+            # a template that loses information only for the file that already has a holder of its own: that file is refused
+            # and left alone (no second header on top of the first), the others are processed, exit status 1
+            step = anncases.step_of(b1, rnd, names, dict(base, template="firstcop"), must=True)
+            step["must"]["sub/three.py"] = False
+            step["mustfail"] = {"sub/three.py": True}
+            add(good_own, [step], cls="template-loses-one-holder-of-two", dot=dot)
         for extra, cname in ((["--single-line", "--multi-line"], "mutex-line"), (["--exclude-year"], "mutex-year"),
                              (["--skip-unrecognised", "--fallback-dot-license"] if dot != "fallback" else ["--force-dot-license"], "mutex-dot"),
                              (["--template", "does-not-exist"], "template-missing"), (["--multi-line"], "multi-unsupported")):
